@@ -4,7 +4,7 @@ use crate::utils::tree::{NodeType, TreeNode, TreeOptions};
 use anyhow::{Context, Result};
 use clap::Subcommand;
 use std::fs::File;
-use std::io::{BufReader, BufWriter};
+use std::io::{BufReader, BufWriter, Write};
 use std::path::Path;
 use wow_wmo::{
     WmoConverter, WmoParser, WmoVersion, WmoWriter, discover_wmo_chunks, parse_wmo_with_metadata,
@@ -507,6 +507,10 @@ fn convert(input_path: &str, output_path: &str, version_str: &str) -> Result<()>
     let writer = WmoWriter::new();
     writer
         .write_root(&mut output_writer, &root, target_version)
+        .with_context(|| "Failed to write converted WMO root")?;
+    // A BufWriter dropped unflushed discards the error of its last write
+    output_writer
+        .flush()
         .with_context(|| "Failed to write converted WMO root")?;
 
     println!("Root WMO converted successfully!");
